@@ -225,6 +225,8 @@ func main() {
 	switch os.Args[1] {
 	case "check":
 		os.Exit(cmdCheck(os.Args[2:]))
+	case "sigs":
+		os.Exit(cmdSigs())
 	case "dump":
 		os.Exit(cmdDump(os.Args[2:]))
 	default:
@@ -394,7 +396,9 @@ func cmdCheck(args []string) int {
 			violations++
 			exit = 1
 		default:
-			fmt.Printf("UNDECIDED: property=%s %s: not decided by proof on this tree; bounded replay on the real code found no failing input (%d cases)\n", *property, label, cases)
+			if len(undecidedOut) < 5 {
+				fmt.Printf("UNDECIDED: property=%s %s: not decided by proof on this tree; bounded replay on the real code found no failing input (%d cases)\n", *property, label, cases)
+			}
 			undecidedOut = append(undecidedOut, label+": "+firstLines(text, 4))
 		}
 	}
@@ -445,6 +449,9 @@ func cmdCheck(args []string) int {
 		fmt.Printf("VIOLATION property=%s replay=%s obligation=%s status=%s%s\n", *property, path, ob.Name, ob.Result.Status, suffix)
 		violations++
 		exit = 1
+	}
+	if len(undecidedOut) > 5 {
+		fmt.Printf("UNDECIDED: property=%s ... and %d more obligations of functions that are not verified on this tree (listed in the evidence)\n", *property, len(undecidedOut)-5)
 	}
 	// bounded stand-ins (labelled bounded, never counted as proved): the property's oracle on the unchanged tree
 	var standins []map[string]interface{}
@@ -623,4 +630,29 @@ func cmdDump(args []string) int {
 	}
 	fmt.Fprintln(os.Stderr, "no such function")
 	return 1
+}
+
+// cmdSigs prints "<contract key>\t<param names>" for every function under contract whose header has no positional
+// parameter list (used once to make the contracts independent of parameter renames).
+func cmdSigs() int {
+	p, err := loadProgram("verif")
+	if err != nil {
+		fmt.Fprintln(os.Stderr, err)
+		return 1
+	}
+	for _, pkg := range []string{pkgStun, pkgHmac} {
+		fns := p.functions(pkg)
+		for k, fc := range p.cs[pkg].Funcs {
+			fn, ok := fns[k]
+			if !ok || fc.Params != nil {
+				continue
+			}
+			var names []string
+			for _, prm := range fn.Params {
+				names = append(names, prm.Name())
+			}
+			fmt.Printf("%s\t%s\t%s\n", pkg, k, strings.Join(names, ", "))
+		}
+	}
+	return 0
 }
